@@ -1,4 +1,5 @@
 import OpenFecVerif.Proofs.SparseInv
+import OpenFecVerif.Proofs.Conv
 /-!
 # C17 — the sparse GF(2) matrix is a set of (row, column) pairs under any operation sequence
 
@@ -111,5 +112,17 @@ example : ∃ m0, alloc 3 4 = some m0 ∧
     m.rows.get 1 = [2] ∧ m.cols.get 2 = [1, 2] ∧ find m 2 2 = true ∧ find m 1 0 = false ∧ m.pool = ⟨1, 1021⟩ := by
   refine ⟨_, rfl, ?_⟩
   decide
+
+/-! ### conversion to and from the dense representation (`Proofs/Conv.lean`) -/
+
+/-- of_mod2dense_to_sparse builds, whatever the destination held, a matrix that satisfies the invariant and whose entries are exactly
+the one bits of the dense matrix -/
+theorem C17_from_dense {m : Dense.D} {r : M} (hfit : m.nr ≤ r.nr ∧ m.nc ≤ r.nc) :
+    Inv (Dense.toSparse m r) ∧ ∀ i j, Mem (Dense.toSparse m r) i j ↔ (i < m.nr ∧ j < m.nc ∧ Dense.bit m i j = true) :=
+  Dense.mem_toSparse hfit
+
+/-- of_mod2sparse_to_dense reads the set of entries: cell (i, j) of the result is one exactly when (i, j) is an entry -/
+theorem C17_to_dense {s : M} {r : Dense.D} (hs : Inv s) (hr : Dense.WF r) (hfit : s.nr ≤ r.nr ∧ s.nc ≤ r.nc) (i j : Nat) :
+    Dense.bit (Dense.ofSparse s r) i j = true ↔ Mem s i j := (Dense.bit_ofSparse hs hr hfit).2 i j
 
 end Sparse
